@@ -24,8 +24,8 @@ BUDGET = {
     # prop: (quick runs, thorough runs)
     "C01": (5000, 100000), "C02": (5000, 100000), "C03": (4000, 80000), "C04": (4000, 80000),
     "C05": (5000, 100000), "C06": (2400, 40000), "C07": (4000, 60000), "C08": (2000, 30000),
-    "C09": (240, 3000), "C10": (3000, 50000), "C11": (6000, 100000), "C16": (4000, 60000),
-    "C17": (160, 1600), "C18": (4000, 60000), "C19": (3000, 50000),
+    "C09": (2400, 40000), "C10": (3000, 50000), "C11": (6000, 100000), "C16": (4000, 60000),
+    "C17": (1600, 24000), "C18": (4000, 60000), "C19": (3000, 50000),
 }
 
 
@@ -242,13 +242,25 @@ def check_main(prop, tier, workers=16, nruns=None, evidence=True):
 
     # ---- re-verify violations in a fresh interpreter ----
     confirmed = []
-    for d in violations[:5]:
+    unreplayed = []
+    for d in violations[:8]:
         r = subprocess.run([PY, os.path.join(ROOT, "check"), "--replay", d["replay"], "--quiet"],
                            env=dict(os.environ, PYTHONHASHSEED=d["hashseed"]))
         if r.returncode == 1:
             confirmed.append(d)
+            if len(confirmed) >= 5:
+                break
         else:
+            unreplayed.append(d)
+    if violations and not confirmed:
+        # nothing replays: the recorded runs depend on something outside the seams
+        for d in unreplayed:
             harness.append(f"violation of run {d['index']} did not replay in a fresh interpreter: {d['replay']}")
+    for d in unreplayed:
+        try:
+            os.unlink(d["replay"])
+        except OSError:
+            pass
 
     nontrivial = len(states)
     if evidence:
